@@ -1,0 +1,14 @@
+//go:build verif
+
+// Verification-only code of package tree (never part of a normal build; read by /verif/govc together with
+// contracts_verif.go). verifLast exercises the range-over-func model of (*node).Iterator2: index and element.
+
+package tree
+
+// verifLast returns the last child of n and the number of children seen (t only carries the well-formedness predicate).
+func verifLast(t *Tree, n *node) (last *node, count int) {
+	for i, element := range n.Iterator2() {
+		last, count = element, i+1
+	}
+	return last, count
+}
